@@ -94,6 +94,22 @@ func genC17(t *rapid.T) c17Case {
 	for i := 0; i < n; i++ {
 		c.Args = append(c.Args, genC17Arg(t, root))
 	}
+	if c.Form == "lookup" && c.Variant != 4 {
+		// a map of the zoo and a present / absent / present-but-nil key
+		m := []string{"M", "MI", "MN", "MA", "MP"}[rapid.IntRange(0, 4).Draw(t, "lookupMap")]
+		key := map[string][]zStep{
+			"M":  {{Kind: "field", Name: "one", Spell: "bracket"}, {Kind: "field", Name: "zero", Spell: "bracket"}, {Kind: "field", Name: "absentKey", Spell: "bracket"}},
+			"MI": {{Kind: "key", I: 1}, {Kind: "key", I: 2}, {Kind: "key", I: 77}},
+			"MN": {{Kind: "field", Name: "nk", Spell: "bracket"}, {Kind: "field", Name: "absentKey", Spell: "bracket"}},
+			"MA": {{Kind: "field", Name: "s", Spell: "bracket"}, {Kind: "field", Name: "n", Spell: "bracket"}, {Kind: "field", Name: "absentKey", Spell: "bracket"}},
+			"MP": {{Kind: "field", Name: "p", Spell: "bracket"}, {Kind: "field", Name: "nilp", Spell: "bracket"}, {Kind: "field", Name: "absentKey", Spell: "bracket"}},
+		}[m]
+		k := key[rapid.IntRange(0, len(key)-1).Draw(t, "lookupKey")]
+		if k.Kind == "key" && rapid.Bool().Draw(t, "lookupVarKey") {
+			k.Var = fmt.Sprintf("idx%d", k.I)
+		}
+		c.Args = []c17Arg{{Base: []string{"var", "dot"}[rapid.IntRange(0, 1).Draw(t, "lookupBase")], Steps: []zStep{{Kind: "field", Name: m, Spell: []string{"dot", "bracket"}[rapid.IntRange(0, 1).Draw(t, "lookupSpell")]}, k}}}
+	}
 	c.Expr = c.template()
 	return c
 }
